@@ -26,6 +26,13 @@ def main(tier):
         n, _ = progfam.replay(chk, ebehs, 4, ['--rehash'], OWNED, tag=fam + 'R', mode='expr', jobs=12)
         total += n
         chk.coverage['expr_family_' + fam] = len(ebehs)
+    # CrossSection values (lazy transform_, tolerance_): Xsec.tla programs, every earlier object re-observed
+    import C11
+    xb = C11.gen(chk, 'Xsec_prog4q.cfg') + C11.gen(chk, 'Xsec_sim.cfg', simulate=40 if tier == 'quick' else 1500)
+    if tier == 'quick': xb = xb[vf.seed() % 4::4]
+    n, _ = progfam.replay(chk, xb, 0, [], {'stability'}, tag='xsec', mode='xsec', jobs=12)
+    total += n
+    chk.coverage['crosssection_programs'] = n
     n1 = total
     chk.coverage.update({
         'traces_validated_against_impl': n1,
